@@ -117,6 +117,27 @@ func checkJarCMS(c sigCase, data []byte, ossl bool) {
 		violation(c.Fmt+":output-not-a-zip", fmt.Sprintf("%s: archive/zip cannot read the signed archive: %v", c, err), c.replay(nil))
 		return
 	}
+	// JAR specification, "Line length": no line may be longer than 72 bytes in
+	// its UTF-8 form (java.util.jar itself tolerates up to 512)
+	for name, body := range files {
+		if name != "META-INF/MANIFEST.MF" && !strings.HasSuffix(name, ".SF") {
+			continue
+		}
+		longest := 0
+		for _, ln := range strings.FieldsFunc(string(body), func(r rune) bool { return r == '\r' || r == '\n' }) {
+			if len(ln) > longest {
+				longest = len(ln)
+			}
+		}
+		kind := "manifest"
+		if name != "META-INF/MANIFEST.MF" {
+			kind = "signature-file"
+		}
+		oracle(c.Fmt, "JAR specification: manifest / .SF lines <= 72 bytes", longest <= 72)
+		if longest > 72 {
+			violation(c.Fmt+":line-longer-than-72-bytes:"+kind, fmt.Sprintf("%s: %s has a line of %d bytes", c, name, longest), c.replay(nil))
+		}
+	}
 	found := 0
 	for name, der := range files {
 		base := ""
@@ -253,7 +274,7 @@ func runApkCase(c sigCase, input []byte, v1 bool) {
 			run.Eval(1)
 			run.Outcome("refused:apk-v1-step:" + short(err))
 			tally("cases:"+c.Fmt, "refused(v1 step)", 1)
-			tally("refusals", c.Fmt+" key="+c.Key+" digest="+c.Hash+" (v1 step): "+short(err), 1)
+			tally("refusals", c.Fmt+" "+keyType(c.Key)+" digest="+c.Hash+" (v1 step): "+short(err), 1)
 			return
 		}
 	}
